@@ -1,6 +1,7 @@
 """Imports the library under test from $VERIF_REPO/src (default /repo/src), fresh, with
 the entropy tripwire installed *before* the import (the default `entropy_f=os.urandom`
 argument binds at import time)."""
+import hashlib
 import os
 import random as _random_mod
 import sys
@@ -28,19 +29,109 @@ class Tripwire:
         out = bytearray()
         while len(out) < n:
             self._ctr += 1
-            out += (0xA5A5A5A5 ^ self._ctr).to_bytes(4, "big")
+            out += hashlib.sha256(b"tripwire|%d" % self._ctr).digest()
         return bytes(out[:n])
 
 
 class Lib:
-    pass
+    """one loaded copy of the library = the module state of one simulated process"""
+
+    _SHIPPED_MOD = {"ed25519": ("spake2.parameters.ed25519", "ParamsEd25519"),
+                    "i1024": ("spake2.parameters.i1024", "Params1024"),
+                    "i2048": ("spake2.parameters.i2048", "Params2048"),
+                    "i3072": ("spake2.parameters.i3072", "Params3072")}
+
+    def __init__(self):
+        self.modules = {}
+        self._shipped = {}
+        self._cache_groups = {}
+        self._cache_params = {}
+
+    def activate(self):
+        return _Activation(self)
+
+    def shipped_params(self, kind):
+        """the module-level parameter set singleton of this copy (imported on first use)"""
+        if kind not in self._shipped:
+            modname, attr = self._SHIPPED_MOD[kind]
+            with self.activate():
+                import importlib
+                mod = importlib.import_module(modname)
+            self._shipped[kind] = getattr(mod, attr)
+        return self._shipped[kind]
+
+    @property
+    def shipped(self):
+        return _ShippedView(self)
+
+
+class _ShippedView:
+    def __init__(self, lib):
+        self.lib = lib
+
+    def __getitem__(self, kind):
+        return self.lib.shipped_params(kind)
+
+    def __contains__(self, kind):
+        return kind in Lib._SHIPPED_MOD
+
+
+class _Activation:
+    """makes `lib`'s module objects the ones registered in sys.modules for the duration of
+    an import (several copies of the package coexist; only one can be registered)"""
+
+    def __init__(self, lib):
+        self.lib = lib
+
+    def __enter__(self):
+        self.saved = {k: v for k, v in sys.modules.items() if k == "spake2" or k.startswith("spake2.")}
+        for k in self.saved:
+            del sys.modules[k]
+        sys.modules.update(self.lib.modules)
+        return self.lib
+
+    def __exit__(self, *a):
+        cur = {k: v for k, v in sys.modules.items() if k == "spake2" or k.startswith("spake2.")}
+        self.lib.modules.update(cur)
+        for k in cur:
+            del sys.modules[k]
+        sys.modules.update(self.saved)
+        return False
 
 
 def repo_root():
     return os.environ.get("VERIF_REPO", "/repo")
 
 
+def _import_copy(src, trip, eager):
+    lib = Lib()
+    empty = Lib()
+    with _Activation(empty):          # park whatever copy is registered
+        import spake2                                   # noqa
+        import spake2.spake2 as sp
+        import spake2.groups as groups
+        import spake2.params as params
+        import spake2.util as util
+        import spake2.ed25519_basic as edb
+        import spake2.ed25519_group as edg
+        here = os.path.realpath(spake2.__file__)
+        if not here.startswith(os.path.realpath(src) + os.sep):
+            raise RuntimeError("spake2 imported from %s, wanted %s" % (here, src))
+        lib.modules = {k: v for k, v in sys.modules.items() if k == "spake2" or k.startswith("spake2.")}
+        for k in list(lib.modules):
+            del sys.modules[k]
+    lib.src = src
+    lib.trip = trip
+    lib.spake2, lib.groups, lib.params, lib.util, lib.edb, lib.edg = sp, groups, params, util, edb, edg
+    lib.classes = {"A": sp.SPAKE2_A, "B": sp.SPAKE2_B, "S": sp.SPAKE2_Symmetric}
+    if eager:
+        for k in Lib._SHIPPED_MOD:
+            lib.shipped_params(k)
+    return lib
+
+
 def load():
+    """the default copy of this process (imported once; forked workers inherit it)"""
     if _STATE["lib"] is not None:
         return _STATE["lib"]
     sys.dont_write_bytecode = True
@@ -55,32 +146,18 @@ def load():
         if name == "spake2" or name.startswith("spake2."):
             del sys.modules[name]
     sys.path.insert(0, src)
-    import spake2                                   # noqa
-    import spake2.spake2 as sp
-    import spake2.groups as groups
-    import spake2.params as params
-    import spake2.util as util
-    import spake2.ed25519_basic as edb
-    import spake2.ed25519_group as edg
-    from spake2.parameters.all import ParamsEd25519, Params1024, Params2048, Params3072
-    here = os.path.realpath(spake2.__file__)
-    if not here.startswith(os.path.realpath(src) + os.sep):
-        raise RuntimeError("spake2 imported from %s, wanted %s" % (here, src))
-    lib = Lib()
-    lib.src = src
-    lib.trip = trip
+    lib = _import_copy(src, trip, eager=True)
     lib.real_urandom = real_urandom
-    lib.spake2 = sp
-    lib.groups = groups
-    lib.params = params
-    lib.util = util
-    lib.edb = edb
-    lib.edg = edg
-    lib.shipped = {"ed25519": ParamsEd25519, "i1024": Params1024,
-                   "i2048": Params2048, "i3072": Params3072}
-    lib.classes = {"A": sp.SPAKE2_A, "B": sp.SPAKE2_B, "S": sp.SPAKE2_Symmetric}
     _STATE["lib"] = lib
     return lib
+
+
+def load_fresh():
+    """a brand-new copy of the package: the module state of a process that has just started
+    (nothing cached, nothing memoised).  Parameter sets beyond the default are imported on
+    first use, as an application would."""
+    base = load()
+    return _import_copy(base.src, base.trip, eager=False)
 
 
 def exec_module_copy(lib, relpath, modname, package="spake2"):
@@ -93,5 +170,6 @@ def exec_module_copy(lib, relpath, modname, package="spake2"):
     mod.__package__ = package
     mod.__file__ = path
     code = compile(text, path, "exec", dont_inherit=True)
-    exec(code, mod.__dict__)
+    with lib.activate():
+        exec(code, mod.__dict__)
     return mod
